@@ -202,6 +202,39 @@ def check(ctx):
     ok = any(isinstance(n, ast.If) and norm(n.test) == "float in result" and any("result[int] = result[float]" == norm(s) for s in n.body) for n in walk_no_nested(cv.node))
     ctx.check(ok, "C01.R3", cv.qualname + ":int<-float", cv.node.body[-1], "number constraints are no longer applied to integer data", cv, cv.node, detail="result[int] = result[float]")
 
+    # ---------------- R6: a constraint set to a falsy value (min=0, max_items=0) is still a constraint
+    ctx.rule("C01.R6", "constraint values are tested with `is None`, never by truthiness (0 is a bound)", floor=4)
+    targets = [model.func("apischema.constraints.merge_constraints"), model.func("apischema.constraints.Constraints.merge_into"),
+               model.func("apischema.deserialization.constraints_validators"), model.func("apischema.utils.merge_opts")]
+    nested = [f for f in model.functions.values() if f.parent is not None and f.parent.qualname == "apischema.utils.merge_opts"]
+    for fi in targets + nested:
+        # variables holding a constraint value: bound from attr_and_metata rows / getattr(c, name) / the wrapper's optionals
+        valvars = set()
+        for n in ast.walk(fi.node):
+            if isinstance(n, (ast.For, ast.comprehension)) and "attr_and_metata" in norm(n.iter) and isinstance(n.target, ast.Tuple) and len(n.target.elts) >= 2 and isinstance(n.target.elts[1], ast.Name):
+                valvars.add(n.target.elts[1].id)
+            if isinstance(n, ast.Assign) and isinstance(n.value, ast.Call) and dotted(n.value.func) == "getattr" and isinstance(n.targets[0], ast.Name):
+                valvars.add(n.targets[0].id)
+        if fi.parent is not None and fi.parent.qualname == "apischema.utils.merge_opts":
+            valvars |= set(fi.params)
+        bad = []
+        for n in walk_no_nested(fi.node):
+            if isinstance(n, ast.BoolOp):
+                for v in n.values:
+                    if isinstance(v, ast.Name) and v.id in valvars:
+                        bad.append(n)
+                    if isinstance(v, ast.UnaryOp) and isinstance(v.op, ast.Not) and isinstance(v.operand, ast.Name) and v.operand.id in valvars:
+                        bad.append(n)
+            if isinstance(n, (ast.If, ast.IfExp, ast.While)):
+                t = n.test
+                if isinstance(t, ast.Name) and t.id in valvars:
+                    bad.append(t)
+                if isinstance(t, ast.UnaryOp) and isinstance(t.op, ast.Not) and isinstance(t.operand, ast.Name) and t.operand.id in valvars:
+                    bad.append(t)
+        ctx.check(not bad, "C01.R6", fi.qualname, bad[0] if bad else None,
+                  f"`{short(bad[0], 70)}` tests a constraint value by truthiness: a constraint set to 0 (min=0, exc_min=0, max_items=0) is dropped when schemas of two levels are merged, so data violating it is accepted" if bad else "",
+                  fi, bad[0] if bad else fi.node, detail=f"{sorted(valvars) or 'no value variable'}: only `is None` tests")
+
     # ---------------- R5
     check_counters(ctx, "C01.R5")
 
@@ -227,6 +260,9 @@ def mutants(mb):
     mb.add_text("row-alias-typo", "apischema/constraints.py", 'constraint("maxLength", str, min_)', 'constraint("maxLen", str, min_)', "C01.R3", "maxLen")
     mb.add_text("int-constraints-dropped", "apischema/deserialization/__init__.py", "    if float in result:\n        result[int] = result[float]\n", "", "C01.R3", "int<-float")
     mb.add_text("hook-unimplemented", "apischema/deserialization/__init__.py", "    def enum(self, cls: Type[Enum]) -> DeserializationMethodFactory:\n        return self.literal(list(cls))\n", "", "C01.R1", "enum")
+    mb.add_text("merge-or", "apischema/constraints.py", "        if attr1 is None:\n            constraints[name] = attr2\n        elif attr2 is None:\n            constraints[name] = attr1\n        else:\n            constraints[name] = metadata.merge(attr1, attr2)",
+                "        if attr1 is not None and attr2 is not None:\n            constraints[name] = metadata.merge(attr1, attr2)\n        else:\n            constraints[name] = attr1 or attr2", "C01.R6", "merge_constraints")
+    mb.add_text("merge-into-truthy", "apischema/constraints.py", "            if attr is not None:\n                alias = metadata.alias", "            if attr:\n                alias = metadata.alias", "C01.R6", "merge_into")
     counter_mutants(mb, "C01.R5")
     mb.add_text("neg-operand-order", M, "        return data >= self.minimum", "        return self.minimum <= data", negative=True)
     mb.add_text("neg-guard-form", M, "        if not isinstance(data, bool):\n            raise bad_type(data, bool)\n        return data", "        if isinstance(data, bool):\n            return data\n        raise bad_type(data, bool)", negative=True)
